@@ -211,7 +211,14 @@ impl RawLexiconEntry {
         w.write_all(&self.pos.to_le_bytes())?;
         size += 2;
         size += u16w.write_empty_if_equal(w, self.norm_form(), self.headword())?;
-        w.write_all(&self.dic_form.as_raw().to_le_bytes())?;
+        // WordInfos::get_word_info resolves this id inside the lexicon that holds the entry:
+        // an own entry of a user dictionary (`UN`) is stored as its index N
+        let dic_form = if self.dic_form != WordId::INVALID && self.dic_form.dic() != 0 {
+            self.dic_form.word()
+        } else {
+            self.dic_form.as_raw()
+        };
+        w.write_all(&dic_form.to_le_bytes())?;
         size += 4;
         size += u16w.write_empty_if_equal(w, self.reading(), self.headword())?;
         size += write_u32_array(w, &self.splits_a)?;
